@@ -96,7 +96,13 @@ pub(crate) mod verif_value {
         /// contract stub for `Parsed::from_value`: only rule text may be parsed (C04).
         pub(crate) fn verif_from_value_stub(value: &'a Value) -> Result<Self, Error> {
             match ev::node_index(value as *const Value) {
-                Some(i) => unsafe { ev::PARSE_COUNT[i] += 1 },
+                Some(i) => unsafe {
+                    ev::PARSE_COUNT[i] += 1;
+                    // outcome class 3: an expression that is invalid at PARSE time (wrong arity, ...)
+                    if ev::OUT_CLASS[i] == 3 {
+                        return Err(Error::UnexpectedError(String::new()));
+                    }
+                },
                 None => {
                     unsafe { ev::FOREIGN_PARSE = true };
                     assert!(false, "C04: the parser was applied to a value that is not rule text (data / computed value re-interpreted)");
